@@ -22,6 +22,7 @@ import FontcProofs.FeaMap
 import FontcProofs.FeaSubst
 import FontcProofs.FeaFlags
 import FontcProofs.FeaGlue
+import FontcProofs.FeaCorrectFlat
 
 namespace Fontc.C11
 open Fontc.FeaCompile
@@ -119,5 +120,70 @@ theorem shape_eq_interp_of_correspondence (p : Program) (t : OT.Tables) (script 
     (s : List Glyph) :
     shape t script lang feats alt s = interp p script lang feats alt s :=
   shape_eq_interp_of p t script lang feats alt gs ps hgs hps hga hpa hg hp s
+
+/-- **`compile_correct`, fragment `flat`** — the whole pipeline, every string.
+
+    Programs: `languagesystem` statements (`lsTops ls`) followed by feature blocks (`featTops fs`)
+    whose statements are `lookupflag` and rule statements (`FlatBody`); every lookup of the program —
+    a run of rules of one type under one flag, `Src.entries p` — is a single, multiple or alternate
+    substitution or a single positioning lookup in which no glyph is targeted twice (`hents`); no
+    single rule stands next to a multiple rule within a run (`NoMixFrom`, fea-rs would merge them);
+    `lookupflag` classes are sorted sets, mark attachment classes come from a family `U` of
+    pairwise disjoint classes (`FlagsOk`, `hU1`, `hU2`); GDEF entries are distinct.
+    Covers: grouping of rules into lookups (new lookup on type or flag change), lookup flags with
+    their GDEF tables, lookup ids in both tables, registration of every lookup under every
+    declared language system, the feature / script / LangSys records and the OpenType selection
+    back from them, and the application of every lookup at every position of `str`.
+    `fx = {}` is fea-rs as it is (`compile p = compileWith {} p`). -/
+theorem compile_correct_flat (fx : Cmp.Fixes) (p : Program) (ls : List (Tag × Tag)) (fs : List (Tag × List Stmt))
+    (U : List (List Glyph))
+    (htops : p.tops = lsTops ls ++ featTops fs)
+    (hbodies : ∀ x ∈ fs, FlatBody x.2 ∧ FlagsOk U x.2 ∧ NoMixFrom {} x.2)
+    (hents : ∀ e ∈ Src.entries p,
+      ((headKind e.lookup.rules).isMapGsub = true ∨ headKind e.lookup.rules = .spos) ∧
+      (e.lookup.rules.flatMap Wf.targets).Nodup)
+    (hgdef : (p.gdef.map (·.1)).Nodup)
+    (hU1 : ∀ c ∈ U, c.Nodup) (hU2 : ∀ c ∈ U, ∀ c' ∈ U, c ≠ c' → ∀ g ∈ c, g ∉ c')
+    (script lang : Tag) (hreg : (script, lang) ∈ Src.langsysOf p.tops)
+    (feats : List Tag) (alt : Nat) (str : List Glyph) :
+    shape (compileWith fx p) script lang feats alt str = interp p script lang feats alt str :=
+  Fontc.FeaCompile.compile_correct_flat fx p ls fs U htops hbodies hents hgdef hU1 hU2 script lang hreg feats alt str
+
+/-! non-vacuity: a program with two language systems, GDEF classes, a `liga` feature with three
+    lookups (single under IgnoreMarks + MarkAttachmentType, multiple, alternate) and a `kern` feature -/
+
+def exLs : List (Tag × Tag) := [("DFLT", "dflt"), ("latn", "dflt")]
+def exFs : List (Tag × List Stmt) :=
+  [("liga", [.flag { im := true, attach := some [13] }, .rule (.single (.g 1) (.g 2)), .rule (.single (.c [3, 4]) (.g 5)),
+             .flag {}, .rule (.multiple 6 [7, 8]), .rule (.alternate 2 [9, 10])]),
+   ("kern", [.rule (.spos (.c [1, 2]) ⟨0, 0, 10, 0⟩)])]
+def exProg : Program := { gdef := [(1, 1), (2, 1), (13, 3), (14, 3)], tops := lsTops exLs ++ featTops exFs }
+
+theorem exProg_bodies : ∀ x ∈ exFs, FlatBody x.2 ∧ FlagsOk [[13]] x.2 ∧ NoMixFrom {} x.2 := by
+  intro x hx
+  simp only [exFs, List.mem_cons, List.not_mem_nil, or_false] at hx
+  rcases hx with rfl | rfl
+  · refine ⟨?_, ?_, ?_⟩
+    · intro st hst; simp at hst; rcases hst with rfl | rfl | rfl | rfl | rfl | rfl <;> simp
+    · intro f hf
+      simp at hf
+      rcases hf with rfl | rfl
+      · exact ⟨⟨by intro c h; cases h; decide, by simp⟩, by intro c h; cases h; decide⟩
+      · exact ⟨⟨by simp, by simp⟩, by simp⟩
+    · simp [NoMixFrom, Src.walkStmt, Src.Walk.flush, headKind, Wf.mixes, Rule.kind]
+  · refine ⟨?_, ?_, ?_⟩
+    · intro st hst; simp at hst; subst hst; simp
+    · intro f hf; simp at hf
+    · simp [NoMixFrom]
+
+theorem exProg_entries : ∀ e ∈ Src.entries exProg,
+    ((headKind e.lookup.rules).isMapGsub = true ∨ headKind e.lookup.rules = .spos) ∧
+    (e.lookup.rules.flatMap Wf.targets).Nodup := by decide
+
+/-- the flat fragment applies to `exProg`, for latn/dflt, any feature set, any string -/
+example (feats : List Tag) (alt : Nat) (str : List Glyph) :
+    shape (compile exProg) "latn" "dflt" feats alt str = interp exProg "latn" "dflt" feats alt str :=
+  compile_correct_flat {} exProg exLs exFs [[13]] rfl exProg_bodies exProg_entries (by decide) (by decide) (by decide)
+    "latn" "dflt" (by decide) feats alt str
 
 end Fontc.C11
